@@ -191,6 +191,9 @@ def run(rep, drv):
 	# echelon base-stock under disruptions of every type (the echelon position counts what is held at the door, paused in transit, ...)
 	for k in range(600 if th else 80):
 		kernel_case(rep, drv, simlib.gen_spec(rng, th, {'kind': 'serial', 'policy': 'EBS', 'pdis': .8}))
+	# echelon base-stock in distribution systems (several downstream-most nodes, each with its own backorders)
+	for k in range(400 if th else 60):
+		kernel_case(rep, drv, simlib.gen_spec(rng, th, {'kind': 'distribution', 'policy': 'EBS', 'pdis': .3}))
 	ebs_equiv(rep, drv, 600 if th else 80, th)
 	mplib.run_mp_stream(rep, drv, 'C04', THEOREM + ' + Props/MP (ipMulti_single, earmark_bounds, rmOrders_sum)', 400 if th else 50, th, seed_off=14)
 
